@@ -45,6 +45,110 @@ fn written<const M: u32>(x: Modular<M>) -> String {
     String::from_utf8(out).unwrap()
 }
 
+/// Many values through ONE writer and ONE reader (more than the 64 KiB the io layer buffers): residues, vectors and tuples of
+/// residues written, the text compared, then i64 tokens of every length up to 20 characters read back as residues - the first token
+/// long and at offset 0, others placed at multiples of 65536.
+#[derive(Clone, Debug, Hash, Serialize, Deserialize, PartialEq)]
+struct Bulk {
+    m: u32,
+    count: u32,
+    seed: u64,
+}
+
+fn bulk_io<const M: u32>(b: &Bulk) -> CaseResult {
+    let mut st = CaseStats::default();
+    let n = b.count.min(60_000) as usize;
+    let mut r = vcore::SplitMix(b.seed ^ M as u64);
+    // ---- writing
+    let vals: Vec<i64> = (0..n)
+        .map(|i| match i % 5 {
+            0 => r.next() as i64,
+            1 => (r.next() % 1000) as i64 - 500,
+            2 => (M as i64) * ((r.next() % 7) as i64 - 3) + (r.next() % 3) as i64 - 1,
+            3 => (r.next() as i64) >> (r.next() % 60),
+            _ => (r.next() % (M as u64)) as i64,
+        })
+        .collect();
+    let mut out = Vec::new();
+    let mut want = String::new();
+    {
+        let mut w = Writer::new(Box::new(&mut out));
+        let mut i = 0;
+        while i < n {
+            let x = Modular::<M>::new(vals[i]);
+            match i % 7 {
+                0 if i + 3 <= n => {
+                    let v: Vec<Modular<M>> = vals[i..i + 3].iter().map(|&v| Modular::<M>::new(v)).collect();
+                    w.write(&v);
+                    want.push_str(&vals[i..i + 3].iter().map(|v| (*v as i128).rem_euclid(M as i128).to_string()).collect::<Vec<_>>().join(" "));
+                    i += 3;
+                }
+                1 if i + 2 <= n => {
+                    let t = (x, 7u8, Modular::<M>::new(vals[i + 1]));
+                    w.write(&t);
+                    want.push_str(&format!("{} 7 {}", (vals[i] as i128).rem_euclid(M as i128), (vals[i + 1] as i128).rem_euclid(M as i128)));
+                    i += 2;
+                }
+                _ => {
+                    w.write(&x);
+                    want.push_str(&(vals[i] as i128).rem_euclid(M as i128).to_string());
+                    i += 1;
+                }
+            }
+            w.write_char(if i % 11 == 0 { '\n' } else { ' ' });
+            want.push(if i % 11 == 0 { '\n' } else { ' ' });
+        }
+    }
+    let got = String::from_utf8_lossy(&out);
+    if got != want {
+        let d = got.bytes().zip(want.bytes()).position(|(a, b)| a != b).unwrap_or(got.len().min(want.len()));
+        return Err(Violation::new("writable", format!("M={}: {} residues written through one writer: output differs from the expected text at byte {} of {} (got {:?}, expected {:?})", M, n, d, want.len(), &got[d.min(got.len())..(d + 30).min(got.len())], &want[d.min(want.len())..(d + 30).min(want.len())])));
+    }
+    // ---- reading: tokens of all lengths; the first one long and at offset 0; every so often a token is placed at a multiple of 65536
+    let mut text = String::new();
+    let mut toks: Vec<i64> = Vec::new();
+    let mut next_mark = 65_536usize;
+    for i in 0..n {
+        let v: i64 = if i == 0 { i64::MIN + (b.seed % 1000) as i64 } else { vals[(i * 7 + 3) % n] };
+        if i > 0 {
+            if text.len() + 1 < next_mark && text.len() + 40 >= next_mark {
+                // pad so that this token starts exactly at the mark
+                while text.len() < next_mark {
+                    text.push(' ');
+                }
+                next_mark += 65_536;
+            } else {
+                text.push(if i % 13 == 0 { '\n' } else { ' ' });
+            }
+        }
+        text.push_str(&v.to_string());
+        toks.push(v);
+    }
+    let mut rd = Reader::new(Box::new(std::io::Cursor::new(text.into_bytes())));
+    for (i, &v) in toks.iter().enumerate() {
+        let x: Modular<M> = rd.read();
+        let wantr = (v as i128).rem_euclid(M as i128);
+        vensure!(x.inner() as i128 == wantr, "readable", "M={}: token #{} ({}) of {} read through one reader gives the residue {}, expected {}", M, i, v, toks.len(), x.inner(), wantr);
+    }
+    vensure!(rd.is_eof(), "readable", "M={}: input not exhausted after reading all {} tokens", M, toks.len());
+    st.nontrivial = want.len() > 65_536;
+    st.size = n as u64;
+    st.label("bulk-io-through-one-writer-and-one-reader");
+    Ok(st)
+}
+
+fn bulk_dispatch(b: &Bulk) -> CaseResult {
+    match b.m {
+        2 => bulk_io::<2>(b),
+        7 => bulk_io::<7>(b),
+        998244353 => bulk_io::<998244353>(b),
+        1000000007 => bulk_io::<1000000007>(b),
+        2147483647 => bulk_io::<2147483647>(b),
+        1073741824 => bulk_io::<1073741824>(b),
+        _ => bulk_io::<65537>(b),
+    }
+}
+
 fn check<const M: u32>(c: &Case) -> CaseResult {
     let mut st = CaseStats::default();
     let m = M as i128;
@@ -163,7 +267,7 @@ fn main() {
          constructor args {MIN, MAX, kM+-1, +-2^31, +-2^32, random}, exponents {0,1,2,M-1,M,2^32,u64::MAX,random}. Oracle: i128/u128 \
          arithmetic mod M for new, +,-,*,neg, the assigning forms and pow; representative in [0,M) and == new(expected) after every \
          operation; for gcd(y,M)=1: (x/y)*y==x, inv(y)*y==1, /= agrees with /; Display, Debug and Writer print the representative in \
-         decimal; Reader of a decimal i64 token equals new(v) and a written value reads back equal. Non-trivial = a result that needed \
+         decimal; Reader of a decimal i64 token equals new(v) and a written value reads back equal; sub-check bulk-io pushes tens of thousands of residues (single, in vectors, in tuples) through ONE writer and as many i64 tokens of every length through ONE reader (more than the io layer buffers; the first token long and at offset 0, tokens placed at multiples of 65536). Non-trivial = a result that needed \
          the conditional subtraction / negative lift (x+y>=M, x-y<0, v<0) or an operand >= 2^30. Distinct = distinct (sub-check, case).",
     );
     ctx.assume("division by a value not coprime to M is unspecified and skipped (counted under non-coprime-division-skipped)");
@@ -199,6 +303,11 @@ fn main() {
             }
         }
         ctx.exhaustive("one-divisor-through-all-moduli", "mint-case", "14 divisors, each inverted and divided by in every modulus it is coprime to, one modulus right after the other", false, inter, dispatch);
+    }
+    ctx.replayer("mint-bulk", |v| bulk_dispatch(&serde_json::from_value::<Bulk>(v.clone()).expect("case")));
+    {
+        let bulks: Vec<Bulk> = [2u32, 7, 65537, 998244353, 1000000007, 1073741824, 2147483647].iter().enumerate().map(|(i, &m)| Bulk { m, count: 24_000 + 1000 * i as u32, seed: 17 + i as u64 }).collect();
+        ctx.exhaustive("bulk-io", "mint-bulk", "24000..30000 residues (also in vectors and tuples) through one writer, then as many i64 tokens of every length through one reader, 7 moduli", false, bulks, bulk_dispatch);
     }
     let per = ctx.n(2_000, 600_000);
     for &m in MODULI.iter().filter(|&&m| m > exh_limit) {
